@@ -202,7 +202,7 @@ func Gen(t *rapid.T) *Case {
 	c.L = rapid.SampledFrom([]int{0, c.K, c.K / 2}).Draw(t, "l")
 	c.G = rapid.SampledFrom([]int{2, 3, 4, 8, 16, 32, 64}).Draw(t, "g")
 	c.M = rapid.IntRange(1, 30).Draw(t, "m")
-	if rapid.IntRange(0, 39).Draw(t, "huge") == 0 { // megabytes per buffer: size-gated paths of Put/clear
+	if kit.Chance(t, "huge", 1, 30) { // megabytes per buffer: size-gated paths of Put/clear
 		c.T = rapid.SampledFrom([]string{"float64", "uint64"}).Draw(t, "hugeType")
 		c.K = rapid.IntRange(270000, 420000).Draw(t, "kHuge") / c.C
 		c.L = 0
